@@ -57,12 +57,14 @@ func buildIDLModel(p *Prog) (*idlModel, string) {
 		if res0.Len() >= 1 {
 			if pt, ok := res0.At(0).Type().(*types.Pointer); ok && types.Identical(pt.Elem(), m.typeT) {
 				m.typeReaders[f] = true
+				m.typeReaders[origFn(f)] = true
 			}
 		}
 		s := m.a.sums[f]
 		if s != nil && s.lenIsNet {
 			if tc, why := m.a.tokenCharset(f); tc != nil {
 				m.tokens[f] = tc
+				m.tokens[origFn(f)] = tc
 			} else {
 				_ = why
 			}
@@ -147,6 +149,9 @@ func (m *idlModel) tokenEq(fs []Fact, lit string) (*ssa.Function, bool) {
 		for _, pr := range [][2]string{{f.A, f.B}, {f.B, f.A}} {
 			if pr[0] == want {
 				for tf := range m.tokens {
+					if isBuiltDuplicate(tf) {
+						continue
+					}
 					if strings.HasPrefix(pr[1], "call:"+funcFullName(tf)+"(") {
 						return tf, true
 					}
@@ -184,7 +189,7 @@ type kindAlt struct {
 
 func (m *idlModel) typeNodes() []typeNode {
 	var out []typeNode
-	for _, f := range m.p.FuncsOf(pkgIDL) {
+	for _, f := range m.funcs() {
 		for _, b := range f.Blocks {
 			for _, in := range b.Instrs {
 				al, ok := in.(*ssa.Alloc)
@@ -239,4 +244,17 @@ func strConstEq(f Fact) (string, string, bool) {
 		}
 	}
 	return "", "", false
+}
+
+// funcs: the functions of the parser package as the rules analyse them: the readers in their inlined views (cursor.go),
+// every other function as built. Cursor methods that are analysed as part of their callers do not appear.
+func (m *idlModel) funcs() []*ssa.Function {
+	out := append([]*ssa.Function(nil), m.a.methods...)
+	for _, f := range m.p.FuncsOf(pkgIDL) {
+		if m.a.isCursorMethod(f) || f == m.a.next || f == m.a.back {
+			continue
+		}
+		out = append(out, f)
+	}
+	return out
 }
